@@ -692,7 +692,19 @@ pub fn render_spans(rng: &mut Rng, p: &Prog, st: Style, lead: bool) -> Rendered 
                 let words = stmt_words(op, args).unwrap_or(1);
                 r.stmts.push(StmtInfo { item: idx, start, end, text: s[start..end].to_string(), words, first_word: word });
                 word += words;
-                s.push_str(&stmt_sep(rng, st));
+                // a label operand ends at the first character that cannot be part of an identifier:
+                // a directive may follow it without any separator (`br skip.fill x1`)
+                let glued = st == Style::Wild
+                    && matches!(args.last(), Some(Operand::Label(_)))
+                    && match p.items.get(idx + 1) {
+                        Some(Item::Stmt { labels, op, .. }) => labels.is_empty() && op.starts_with('.'),
+                        Some(Item::Break) | Some(Item::Orig(_)) | Some(Item::End) => true,
+                        None => false,
+                    }
+                    && rng.chance(1, 3);
+                if !glued {
+                    s.push_str(&stmt_sep(rng, st));
+                }
             }
         }
     }
